@@ -211,6 +211,64 @@ Example C13_hypotheses_satisfiable :
     fin = {| pts := [1; 4; 11; 7]; prm := [1; 4] |}.
 Proof. exact hypotheses_satisfiable. Qed.
 
+(** ** clamps made from a vertex' live position array, optimize() called again (Model/C13_Alias.v) *)
+(** The library's examples clamp a vertex with LineClamp(v.position, v.position, v.position + d, bounds);
+    backport() moves vertices in place.  [copy = true]: the clamp holds its own copy of the defining point
+    (np.array, the code); [copy = false]: it holds the caller's array (np.asarray).  Heap cell [r] is the
+    vertex, the line has direction 1, [os] are the minimisers of successive optimize() calls (arbitrary
+    functions of the current heap and clamp), [MA.respectsb]: each stayed inside the clamp's bounds.
+    After EACH call: the vertex is at p1 + t for the clamp's current parameter t with lo <= t <= hi, where p1 is
+    its position at clamp creation (on the line described then, inside the bounds counted from there);
+    clamp.function(clamp.params) is the vertex; no other cell has changed. *)
+From Coq Require Import ZArith.
+From CB Require Model.C13_Alias Proofs.C13_Alias.
+Module MA := CB.Model.C13_Alias.
+Module PA := CB.Proofs.C13_Alias.
+
+Definition C13_clamp_on_line_stmt (copy : bool) : Prop :=
+  forall (os : list MA.oracle) (h : MA.heap) (r : nat) (lo hi : Z),
+    r < length h ->
+    let c := MA.make_clamp copy h r lo hi in
+    MA.respectsb os r h c = true ->
+    Forall (fun st : MA.heap * MA.clamp =>
+              MA.read (fst st) r = (MA.read h r + MA.c_t (snd st))%Z /\
+              (lo <= MA.c_t (snd st) <= hi)%Z /\
+              (lo <= MA.read (fst st) r - MA.read h r <= hi)%Z /\
+              MA.clamp_pos (fst st) (snd st) = MA.read (fst st) r /\
+              length (fst st) = length h /\ (forall r', r' <> r -> MA.read (fst st) r' = MA.read h r'))
+           (MA.trace os r h c).
+
+Definition C13_clamp_holds_its_own_copy_stmt : Prop := C13_clamp_on_line_stmt true.
+
+(** its hypotheses hold on a run of five calls (vertex 1 of [7; 10; 20], bounds (0, 3)) *)
+Example C13_clamp_on_line_satisfiable :
+  let c := MA.make_clamp true MA.mini_heap 1 0 3 in
+  let os := [MA.to_hi; MA.to_hi; MA.half_up; MA.to_lo; MA.to_hi] in
+  1 < length MA.mini_heap /\ MA.respectsb os 1 MA.mini_heap c = true /\
+  map (fun st => MA.read (fst st) 1) (MA.trace os 1 MA.mini_heap c) = [13; 13; 13; 10; 13]%Z /\
+  fst (MA.run os 1 MA.mini_heap c) = [7; 13; 20]%Z.
+Proof. exact PA.mini_copy. Qed.
+
+(** With the aliased clamp the statement is false: two calls that go to the upper bound 3 put the vertex
+    (created at 10) at 13 and then at 16 = 10 + 2 * 3, the clamp's parameter being 3.  In general the vertex
+    drifts by every chosen parameter: after a run it is at p1 + (sum of the chosen parameters), whatever the
+    bounds; n calls that go to the upper bound: p1 + n * hi. *)
+Definition C13_aliased_clamp_refuted_stmt : Prop :=
+  ~ C13_clamp_on_line_stmt false /\
+  (let c := MA.make_clamp false MA.mini_heap 1 0 3 in
+   MA.respectsb [MA.to_hi; MA.to_hi] 1 MA.mini_heap c = true /\
+   MA.read (fst (MA.run [MA.to_hi] 1 MA.mini_heap c)) 1 = (10 + 3)%Z /\
+   MA.read (fst (MA.run [MA.to_hi; MA.to_hi] 1 MA.mini_heap c)) 1 = (10 + 2 * 3)%Z /\
+   MA.c_t (snd (MA.run [MA.to_hi; MA.to_hi] 1 MA.mini_heap c)) = 3%Z) /\
+  (forall (os : list MA.oracle) (h : MA.heap) (r : nat) (lo hi : Z),
+     r < length h ->
+     MA.read (fst (MA.run os r h (MA.make_clamp false h r lo hi))) r
+       = (MA.read h r + MA.sumz (MA.chosen os r h (MA.make_clamp false h r lo hi)))%Z) /\
+  (forall (n : nat) (h : MA.heap) (r : nat) (lo hi : Z),
+     r < length h ->
+     MA.read (fst (MA.run (repeat MA.to_hi n) r h (MA.make_clamp false h r lo hi))) r
+       = (MA.read h r + Z.of_nat n * hi)%Z).
+
 (** ** theorems *)
 Theorem C13_no_worse : C13_no_worse_stmt.
 Proof. exact run_events_no_worse. Qed.
@@ -274,6 +332,15 @@ Qed.
 Theorem C13_no_worse_without_sits_refuted : ~ C13_no_worse_unconditional_stmt.
 Proof. exact no_worse_unconditional_refuted. Qed.
 
+Theorem C13_clamp_holds_its_own_copy : C13_clamp_holds_its_own_copy_stmt.
+Proof. exact PA.copy_on_line. Qed.
+
+Theorem C13_aliased_clamp_refuted : C13_aliased_clamp_refuted_stmt.
+Proof.
+  exact (conj (proj1 PA.aliased_on_line_refuted) (conj (proj2 PA.aliased_on_line_refuted)
+          (conj PA.ref_drift_made PA.ref_drift_to_hi))).
+Qed.
+
 Print Assumptions C13_no_worse.
 Print Assumptions C13_optimize_no_worse.
 Print Assumptions C13_no_worse_any_test.
@@ -294,3 +361,5 @@ Print Assumptions C13_no_worse_real.
 Print Assumptions C13_no_worse_real_strict.
 Print Assumptions C13_correspondence_tests_covered.
 Print Assumptions C13_no_worse_without_sits_refuted.
+Print Assumptions C13_clamp_holds_its_own_copy.
+Print Assumptions C13_aliased_clamp_refuted.
